@@ -177,9 +177,11 @@ static void List_Del(var self) {
 static void List_Assign(var self, var obj) {
   struct List* l = self;
   
+  var type = implements_method(obj, Iter, iter_type) ? iter_type(obj) : Ref;
+  
   List_Clear(self);
   
-  l->type = implements_method(obj, Iter, iter_type) ? iter_type(obj) : Ref;
+  l->type = type;
   l->tsize = size(l->type);
   
   size_t nargs = len(obj);
